@@ -566,6 +566,52 @@ where
     })
 }
 
+/// Coordinates of points that are on the curve by construction (k*G through the group law, which multiplies by the
+/// coefficient a through `mul_by_a`, never through the helper under test): the helper must return the known other
+/// coordinate among its two roots. Independent of the COEFF_* constants the value oracle above is built from.
+fn sw_known<P: SWCurveConfig>(name: &str, t: &mut Tape<'_>, o: &mut Obs) -> R {
+    use ark_ec::{AffineRepr, CurveGroup};
+    let k = 1 + t.below(1 << 20);
+    let pt = (SwAffine::<P>::generator().mul_bigint([k])).into_affine();
+    o.show(|| format!("{}: [{}]G", name, k));
+    o.nt(k > 1);
+    let (x, y) = match pt.xy() {
+        Some(c) => c,
+        None => return Ok(()),
+    };
+    match no_panic("get_ys_from_x_unchecked", || SwAffine::<P>::get_ys_from_x_unchecked(x))? {
+        Some((y0, y1)) => ensure!(y0 == y || y1 == y, "known-point.get_ys", "[{}]G = ({:?}, {:?}): roots returned for this x do not contain y", k, x, y),
+        None => return fail("known-point.get_ys.none", format!("[{}]G has x = {:?} but no y is found for it", k, x)),
+    }
+    for greatest in [false, true] {
+        match no_panic("get_point_from_x_unchecked", || SwAffine::<P>::get_point_from_x_unchecked(x, greatest))? {
+            Some(q) => ensure!(q.x == x && (q.y == y || q.y == -y), "known-point.get_point_from_x", "[{}]G: point from x has other coordinates", k),
+            None => return fail("known-point.get_point_from_x.none", format!("[{}]G: no point for its x", k)),
+        }
+    }
+    Ok(())
+}
+
+fn te_known<P: TECurveConfig>(name: &str, t: &mut Tape<'_>, o: &mut Obs) -> R {
+    use ark_ec::{AffineRepr, CurveGroup};
+    let k = 1 + t.below(1 << 20);
+    let pt = (TeAffine::<P>::generator().mul_bigint([k])).into_affine();
+    o.show(|| format!("{}: [{}]G", name, k));
+    o.nt(k > 1);
+    let (x, y) = (pt.x, pt.y);
+    match no_panic("get_xs_from_y_unchecked", || TeAffine::<P>::get_xs_from_y_unchecked(y))? {
+        Some((x0, x1)) => ensure!(x0 == x || x1 == x, "known-point.get_xs", "[{}]G = ({:?}, {:?}): roots returned for this y do not contain x", k, x, y),
+        None => return fail("known-point.get_xs.none", format!("[{}]G has y = {:?} but no x is found for it", k, y)),
+    }
+    for greatest in [false, true] {
+        match no_panic("get_point_from_y_unchecked", || TeAffine::<P>::get_point_from_y_unchecked(y, greatest))? {
+            Some(q) => ensure!(q.y == y && (q.x == x || q.x == -x), "known-point.get_point_from_y", "[{}]G: point from y has other coordinates", k),
+            None => return fail("known-point.get_point_from_y.none", format!("[{}]G: no point for its y", k)),
+        }
+    }
+    Ok(())
+}
+
 fn sw_rels<P: SWCurveConfig>(out: &mut Vec<Rel>, name: &str, cases: u32)
 where
     P::BaseField: OracleRepr,
@@ -573,6 +619,8 @@ where
     let cv = sw_crv::<P>(name);
     let w = words(&cv.f);
     out.push(Rel::new(format!("sw-from-x/{}", name), cases, w, move |t, o| sw_rel::<P>(&cv, t, o)).shrink_iters(400));
+    let nm = name.to_string();
+    out.push(Rel::new(format!("sw-known-points/{}", name), (cases / 8).max(12), 2, move |t, o| sw_known::<P>(&nm, t, o)).shrink_iters(60));
 }
 
 fn te_rels<P: TECurveConfig>(out: &mut Vec<Rel>, name: &str, cases: u32)
@@ -582,6 +630,8 @@ where
     let cv = te_crv::<P>(name);
     let w = words(&cv.f);
     out.push(Rel::new(format!("te-from-y/{}", name), cases, w, move |t, o| te_rel::<P>(&cv, t, o)).shrink_iters(400));
+    let nm = name.to_string();
+    out.push(Rel::new(format!("te-known-points/{}", name), (cases / 8).max(12), 2, move |t, o| te_known::<P>(&nm, t, o)).shrink_iters(60));
 }
 
 // ---------------------------------------------------------------------------------------------
@@ -683,6 +733,8 @@ fn relations(tier: Tier) -> Vec<Rel> {
     te_rels::<ark_ed25519::EdwardsConfig>(&mut out, "ed25519", q(600));
     te_rels::<ark_ed_on_bn254::EdwardsConfig>(&mut out, "ed_on_bn254", q(600));
     te_rels::<ark_ed_on_bls12_377::EdwardsConfig>(&mut out, "ed_on_bls12_377", q(600));
+    // the twisted Edwards model of BLS12-377 G1 (a second TECurveConfig on the curve crate's G1 configuration)
+    te_rels::<ark_bls12_377::g1::Config>(&mut out, "bls12_377.G1.TE", q(300));
     te_rels::<ark_ed_on_mnt4_298::EdwardsConfig>(&mut out, "ed_on_mnt4_298", q(500));
     te_rels::<ark_ed_on_cp6_782::EdwardsConfig>(&mut out, "ed_on_cp6_782", q(400));
     te_rels::<ark_test_curves::ed_on_bls12_381::EdwardsConfig>(&mut out, "test.ed_on_bls12_381", q(600));
